@@ -98,6 +98,55 @@ func %s() {
 `, n, name, n)
 		fam.Instances = append(fam.Instances, Instance{Func: name, Stratum: "Execute:incremental", Desc: fmt.Sprintf("sort model over %d built + 1 incrementally added rule, then after a removal", n), Expect: []string{"executed"}})
 	}
+	// a removal, then a surviving rule re-sent incrementally (same and changed salience), then the sort model
+	for _, same := range []bool{true, false} {
+		name := fmt.Sprintf("H_RemoveThenResend_%v", same)
+		fmt.Fprintf(&b, `
+// four rules, the first by name removed, a survivor re-sent (same salience: %v), then the sort model
+func %s() {
+	n := 4
+	s := symSal(n)
+	f := symFlags("f", n)
+	b := vnd.Bool("b")
+	vnd.Assume(vnd.And(s[0] >= s[1], vnd.And(s[1] >= s[2], s[2] >= s[3])))
+	rb := build(n, s, f)
+	must(rb.RemoveRules([]string{"r0"}), "removal")
+	if !%v {
+		s[2] = vnd.Int64("s2new")
+	}
+	must(rb.BuildRuleWithIncremental(oneRule(2, s[2], "")), "incremental build")
+	eng := engine.NewGengine()
+	err := eng.Execute(rb, b)
+	vnd.Reach("executed")
+	cand := allTrue(n)
+	cand[0] = false
+	checkSorted(vnd.Trace(), n, cand, s, f, b, err)
+	vnd.Assert(vnd.Count(sname(0)) == 0, "the removed rule never runs")
+}
+`, same, name, same)
+		fam.Instances = append(fam.Instances, Instance{Func: name, Stratum: "Execute:remove-resend", Desc: fmt.Sprintf("removal, re-send of a survivor (same salience %v), sort model", same), Expect: []string{"executed"}})
+	}
+	// saliences written with leading zeros and signs are decimal numbers
+	b.WriteString(`
+func H_LeadingZeroSaliences() {
+	b := vnd.Bool("b")
+	dc := newDC(allFalse(5))
+	text := ""
+	for i, sal := range []string{"050", "045", "-010", "-009", "0100"} {
+		k := strconv.Itoa(i)
+		text += "rule \"r" + k + "\" salience " + sal + "\nbegin\n ev(\"r" + k + ".s\")\n ev(\"r" + k + ".e\")\nend\n"
+	}
+	rb := buildText(dc, text)
+	eng := engine.NewGengine()
+	err := eng.Execute(rb, b)
+	vnd.Reach("executed")
+	checkSorted(vnd.Trace(), 5, allTrue(5), []int64{50, 45, -10, -9, 100}, allFalse(5), b, err)
+	err = eng.ExecuteSelectedRulesWithControl(rb, b, []string{"r3", "r1", "r2", "r0"})
+	ord := startOrder(vnd.Trace()[10:], 5)
+	vnd.Assert(err == nil && len(ord) == 4 && ord[0] == 0 && ord[1] == 1 && ord[2] == 3 && ord[3] == 2, "selected rules run by decimal salience")
+}
+`)
+	fam.Instances = append(fam.Instances, Instance{Func: "H_LeadingZeroSaliences", Stratum: "Execute:literal-saliences", Desc: "saliences 050, 045, -010, -009, 0100", Expect: []string{"executed"}})
 	// a rule that sets the stop tag and then fails: the failure still counts
 	for n := 1; n <= 2; n++ {
 		name := fmt.Sprintf("H_StopTagSetAndFail_%d", n)
